@@ -182,6 +182,41 @@ pub fn check_c05(case: &HistoryCase, reps: usize, threads: usize, rep: &mut Repo
         }
     }
     rep.add("repetitions", reps as u64);
+    // the same history once more, the tree being rendered (other options, then the same options) after
+    // every step before it is extended further: what was rendered earlier must not change the bytes
+    if texts.len() > 1 {
+        let o2 = clone_opts(&o);
+        let along = guarded(|| {
+            let kind = |i: usize| if case.kinds.is_empty() { ReaderKind::Str } else { case.kinds[i % case.kinds.len()] };
+            let mut root = real::parse_bytes(texts[0].as_bytes(), kind(0), Cfg::default()).map_err(|e| e.to_string())?;
+            for (i, t) in texts.iter().enumerate().skip(1) {
+                let _ = root.to_serde_struct(&real::opts("", "text_content", "Debug", i % 2 == 0));
+                let _ = root.to_serde_struct(&o2);
+                root = real::extend_bytes(t.as_bytes(), kind(i), Cfg::default(), root).map_err(|e| e.to_string())?;
+            }
+            Ok::<String, String>(root.to_serde_struct(&o2))
+        });
+        rep.count("repetitions_rendering_after_every_step");
+        match along {
+            Ok(Ok(s)) if s == base => {}
+            Ok(Ok(s)) => {
+                rep.violation(
+                    "nondeterministic:depends-on-earlier-rendering",
+                    format!("the same history and options rendered different bytes when the tree had been rendered between the steps\nrendered once at the end:\n{}\nrendered along the way:\n{}", base, s),
+                    case.to_json(),
+                );
+                return;
+            }
+            Ok(Err(e)) => {
+                rep.violation("nondeterministic:outcome", format!("with renderings between the steps: {}", e), case.to_json());
+                return;
+            }
+            Err(p) => {
+                rep.violation("nondeterministic:outcome", format!("panic with renderings between the steps: {}", p), case.to_json());
+                return;
+            }
+        }
+    }
     if names.len() >= 3 {
         if canaries.len() >= 2 {
             rep.count("cases_where_canary_hash_order_varied");
@@ -200,12 +235,17 @@ pub fn check_c05(case: &HistoryCase, reps: usize, threads: usize, rep: &mut Repo
                     let texts = &texts;
                     let kinds = &case.kinds;
                     let o = clone_opts(&o);
+                    // a shared reference when Element<String> is Sync (it is on the pinned tree); a tree
+                    // that made it !Sync is still observed, each thread rendering its own clone
+                    #[cfg(not(feature = "element_not_sync"))]
                     let tree = &tree;
+                    #[cfg(feature = "element_not_sync")]
+                    let tree = tree.clone();
                     s.spawn(move || {
                         if t % 2 == 0 {
                             parse_and_render(texts, kinds, &o)
                         } else {
-                            match tree {
+                            match &tree {
                                 Some(tr) => guarded(|| tr.to_serde_struct(&o)),
                                 None => Err("no tree".into()),
                             }
@@ -374,7 +414,7 @@ pub fn run_c05(thorough: bool, seed: u64, shards: usize) -> (Report, String) {
     }
     let _ = std::fs::remove_dir_all(&c05_work);
     let rule = format!(
-        "{} histories (three quarters from a collision profile: sibling names a-b/a_b/a.b/aB/Foo/foo..., attribute/child/text identifier clashes, repeated parents with empty occurrences; one quarter general), each parsed and rendered {} more times in the same thread (fresh RandomState per HashMap), every 8th also by {} threads (independent parse+render and concurrent rendering of one shared tree), and the first {} cases by {} fresh processes compared by 128-bit hash — the processes execute the cases in different orders (forward, backward, shuffled: state leaking between calls would show) and under different environments (locale/time zone/cwd; HOME pointing nowhere and the `log` sink switched off while it is on at Trace level elsewhere; empty environment). A canary HashMap filled with the same child names records whether iteration orders actually varied; non-trivial = cases (>= 3 sibling names) where >= 2 canary orders were seen; distinct by rendered bytes.",
+        "{} histories (three quarters from a collision profile: sibling names a-b/a_b/a.b/aB/Foo/foo..., attribute/child/text identifier clashes, repeated parents with empty occurrences; one quarter general), each parsed and rendered {} more times in the same thread (fresh RandomState per HashMap) and once more with the tree rendered after every step before the next extension (what was rendered earlier must not change the bytes), every 8th also by {} threads (independent parse+render and concurrent rendering of one shared tree), and the first {} cases by {} fresh processes compared by 128-bit hash — the processes execute the cases in different orders (forward, backward, shuffled: state leaking between calls would show) and under different environments (locale/time zone/cwd; HOME pointing nowhere and the `log` sink switched off while it is on at Trace level elsewhere; empty environment). A canary HashMap filled with the same child names records whether iteration orders actually varied; non-trivial = cases (>= 3 sibling names) where >= 2 canary orders were seen; distinct by rendered bytes.",
         n, reps, threads, np_cases, procs
     );
     (rep, rule)
